@@ -166,3 +166,34 @@ Print Assumptions counters_sum_between_epochs.
 Print Assumptions tracked_total_is_sum_of_holdings.
 Print Assumptions withdraw_only_free_stake.
 Print Assumptions delegation_withdrawn_once.
+
+(* ---- translation tie (T): the time / period functions the model uses ARE the code ----
+   coq/Gen/StakerTime.v is regenerated by tools/go2v on every run from builtin/staker/validation/validation.go (CurrentIteration,
+   IsPeriodEnd, CooldownEnded, CalculateWithdrawableVET, NextPeriodTVL, multiplier) and delegation/delegation.go (Started, Ended);
+   gen_f v b is the generated function applied to the fields of the model record.  On in-range inputs the hand-written model
+   functions used throughout this file are equal to the translated code (GenProofs/StakerTimeProofs.v also gives the inputs
+   where the unbounded model and the fixed-width code differ: block 2^32 - 1 and exit block + cooldown period >= 2^32). *)
+From Coq Require Import ZArith.
+From Verif Require Import GenProofs.StakerTimeProofs.
+Open Scope N_scope.
+
+Theorem staker_time_model_is_translated_code c d v b :
+  val_in_range v -> (b < 4294967295)%N ->
+  gen_current_iteration v b = res_Z (current_iteration v b) /\
+  gen_is_period_end v b = is_period_end v b /\
+  gen_started d v b = res_bool (d_started d v b) /\
+  gen_ended d v b = res_bool (d_ended d v b) /\
+  gen_multiplier v = Z.of_N (v_multiplier v) /\
+  (cooldown_fits c v -> gen_cooldown_ended c v b = cooldown_ended c v b) /\
+  (cooldown_fits c v -> n64 (v_withdrawable v + v_cooldown v + v_queued v) ->
+     gen_calc_withdrawable c v b = Z.of_N (calc_withdrawable c v b)) /\
+  (n64 (v_locked v + v_queued v) -> n64 (v_punlock v) -> gen_next_period_tvl v = res_Z (v_next_period_tvl v)).
+Proof. exact (staker_time_translation_tie c d v b). Qed.
+
+Example ex_translation_tie_hyps :
+  let v := mkV 7 None 180 0 2 360 (Some 900) None 25000000 0 5 0 0 25000000 None None in
+  val_in_range v /\ cooldown_fits (mkC 180 0 0 0 8640 0 0 0 0) v /\ n64 (v_withdrawable v + v_cooldown v + v_queued v) /\
+  gen_current_iteration v 1000 = Some 4%Z /\ current_iteration v 1000 = Ok 4.
+Proof. exact tie_hyps_hold. Qed.
+
+Print Assumptions staker_time_model_is_translated_code.
